@@ -2,13 +2,17 @@ import Aergo.Model.DriverLib
 import Aergo.Model.Trie
 import Aergo.Model.TrieBatch
 import Aergo.Model.TrieStore
+import Aergo.Model.TrieStoreUpd
 
 /-! Model driver for C10 (and the trie part of C11): `model-c10 < ops > out`.
 Ops: `new` | `update k=v k=DEL …` (sorted hex keys) | `get k` | `keys` | `commit` | `reopen i`.
 Roots are printed as hash *terms* (`root N E L <key> <val> <h> …`); the harness evaluates them.
 Storage layer: `sbatch <path bits | ->` prints the batch `TrieStore.layout` expects in the store under the
 batch root reached by the path in the current tree (child references as hash terms); `sget <root> <key> k=v …`
-runs `TrieStore.getRoot` (the trie's `get` through loadChildren/parseBatch) on the given store pairs. -/
+runs `TrieStore.getRoot` (the trie's `get` through loadChildren/parseBatch) on the given store pairs.
+`new <h> w` switches on the `updatedNodes` bookkeeping (`TrieStore.updU`, hashes kept symbolic by an injective
+length-prefixed stand-in for the hash function); `wset`, sent before `commit`, prints the batch roots of the current
+tree that the commit is going to write (by path) and the number of recorded batches that are not part of the tree. -/
 open Aergo Aergo.DriverLib Aergo.Trie
 
 def hexToBits (s : String) : Option (List Bool) := do
@@ -19,6 +23,26 @@ structure St where
   height : Nat := 256
   cur : T String := .empty
   committed : Array (T String) := #[]
+  /-- `updatedNodes` of the instance (only when `track`) -/
+  un : TrieStore.UN := []
+  track : Bool := false
+
+/-- An injective stand-in for the hash function (the driver never evaluates SHA-256): tag, 4-byte length, the input
+itself. Distinct inputs give distinct outputs, the outputs are prefix-free and never start with the `DefaultLeaf`
+byte, so two symbolic hashes are equal exactly when the real ones are (collisions aside). -/
+def symCtx : HashCtx :=
+  { H := fun x => 1 :: UInt8.ofNat (x.length / 16777216 % 256) :: UInt8.ofNat (x.length / 65536 % 256) ::
+      UInt8.ofNat (x.length / 256 % 256) :: UInt8.ofNat (x.length % 256) :: x,
+    enc := TrieBatch.packBits }
+
+def mapT {α β : Type} (f : α → β) : T α → T β
+  | .empty => .empty
+  | .leaf k v => .leaf k (f v)
+  | .node l r => .node (mapT f l) (mapT f r)
+
+def toBytesT (t : T String) : T Trie.Bytes := mapT (fun v => (unhex v).getD []) t
+
+def bitsStr (p : List Bool) : String := if p.isEmpty then "-" else String.ofList (p.map fun b => if b then '1' else '0')
 
 def parseKV (s : String) : Option (KV String) :=
   match s.splitOn "=" with
@@ -31,24 +55,36 @@ def rootLine (s : St) : String := "root " ++ " ".intercalate (term s.height s.cu
 
 def c10Step (s : St) (line : String) : St × String :=
   match words line with
-  | ["new", _cacheHeight] => ({ s with cur := .empty, committed := #[] }, "ok")
+  | ["new", _cacheHeight] => ({ s with cur := .empty, committed := #[], un := [], track := false }, "ok")
+  | ["new", _cacheHeight, "w"] => ({ s with cur := .empty, committed := #[], un := [], track := true }, "ok")
   | "update" :: kvs =>
     match kvs.mapM parseKV with
     | some (kv :: rest) =>
-      let s' := { s with cur := updateRoot s.height s.cur (kv :: rest) }
+      let un' := if s.track then
+          (TrieStore.updU symCtx s.height [] (toBytesT s.cur)
+            ((kv :: rest).map fun (k, ov) => (k, ov.map fun v => (unhex v).getD [])) s.un).2
+        else s.un
+      let s' := { s with cur := updateRoot s.height s.cur (kv :: rest), un := un' }
       (s', rootLine s')
     | _ => (s, "bad-op")
+  | ["wset"] =>
+    if !s.track then (s, "bad-op") else
+    let roots := TrieStore.batchRoots symCtx (s.height / 4) [] (toBytesT s.cur)
+    let keys := s.un.map (·.1)
+    let live := (roots.filter fun r => keys.contains r.2).map fun r => bitsStr r.1
+    let orphans := (keys.filter fun k => !roots.any fun r => r.2 == k).length
+    (s, s!"wset {",".intercalate (live.toArray.qsort (· < ·)).toList} orphans={orphans}")
   | ["get", k] =>
     match hexToBits k with
     | some kb => (s, (get s.cur kb).getD "nil")
     | none => (s, "bad-op")
   | ["keys"] => (s, "keys " ++ ",".intercalate ((keysOf s.cur []).map bitsToHex))
-  | ["commit"] => ({ s with committed := s.committed.push s.cur }, s!"ok {s.committed.size}")
+  | ["commit"] => ({ s with committed := s.committed.push s.cur, un := [] }, s!"ok {s.committed.size}")
   | ["reopen", i] =>
     match i.toNat? with
     | some i =>
       match s.committed[i]? with
-      | some t => let s' := { s with cur := t }; (s', rootLine s')
+      | some t => let s' := { s with cur := t, un := [] }; (s', rootLine s')
       | none => (s, "bad-op")
     | none => (s, "bad-op")
   | ["par", v] =>
